@@ -169,6 +169,14 @@ def model(cfg, ctx, group, args):
         exp['Euclid::rem_euclid'] = e3['rem_euclid']
         exp['CheckedEuclid::checked_div_euclid'] = e3['checked_div_euclid']
         exp['CheckedEuclid::checked_rem_euclid'] = e3['checked_rem_euclid']
+        de, re_ = e3['div_euclid'], e3['rem_euclid']
+        exp['Euclid::div_rem_euclid'] = PANIC if (de == PANIC or re_ == PANIC) else ((de, re_) if not (de is ANY or re_ is ANY) else ANY)
+        cde, cre = e3['checked_div_euclid'], e3['checked_rem_euclid']
+        exp['CheckedEuclid::checked_div_rem_euclid'] = None if (cde is None or cre is None) else (Some((cde[1], cre[1])) if (isinstance(cde, tuple) and isinstance(cre, tuple)) else ANY)
+        exp['Zero::set_zero'] = 0
+        exp['One::set_one'] = 1
+        exp['Integer::inc'] = arith(a + 1)
+        exp['Integer::dec'] = arith(a - 1)
         exp['Bounded::min_value'] = cfg.min
         exp['Bounded::max_value'] = cfg.max
         exp['Zero::zero'] = 0
